@@ -28,6 +28,8 @@ pub enum Beh {
     EventsClosing(u32),
     /// fetch the body (limit 1 000 000); the second call sends `k` events before it returns an event stream (the queue holds 50)
     UploadThenEvents(u32),
+    /// a response that the serialiser refuses before it writes anything (it carries a Content-Length field of its own)
+    Unwritable,
     /// fetch the body (limit 1 000 000); the second call keeps a clone of the request (an audit queue) and answers 200
     UploadKeepClone,
 }
@@ -40,6 +42,12 @@ struct Shared {
 fn shared() -> &'static Mutex<Shared> {
     static S: OnceLock<Mutex<Shared>> = OnceLock::new();
     S.get_or_init(|| Mutex::new(Shared { behaviours: HashMap::new(), log: Vec::new() }))
+}
+
+/// Sets (or lifts) the soft limit on the size of files this process writes.
+fn set_fsize_soft(limit: Option<u64>) -> bool {
+    let v = limit.map_or("unlimited".to_string(), |l| l.to_string());
+    std::process::Command::new("prlimit").args(["--pid", &std::process::id().to_string(), &format!("--fsize={v}:")]).status().map(|s| s.success()).unwrap_or(false)
 }
 
 /// Requests kept by `UploadKeepClone` handlers (dropped at the end of each case, after the cache directory has been looked at).
@@ -115,6 +123,7 @@ fn handler(req: Request) -> Response {
                 Response::text(200, format!("got-{path}-{}", req.body.len().unwrap_or(0)))
             }
         }
+        Beh::Unwritable => Response::text(200, "x").with_header("Content-Length", servlin::AsciiString::try_from("1").unwrap()),
         Beh::UploadThenEvents(k) => {
             if req.body.is_pending() { return Response::get_body_and_reprocess(1_000_000); }
             let (mut sender, r) = Response::event_stream();
@@ -237,6 +246,7 @@ pub fn request_bytes(spec: &str) -> (Vec<u8>, String, Beh) {
         "X" => Beh::EventsClosing(beh[1..].parse().unwrap()),
         "S" => Beh::UploadThenEvents(beh[1..].parse().unwrap()),
         "Q" => Beh::UploadKeepClone,
+        "U" => Beh::Unwritable,
         "w" => Beh::Wait(beh[1..].parse().unwrap()),
         "F" => {
             let parts: Vec<&str> = beh[1..].split('-').collect();
@@ -330,6 +340,9 @@ pub fn case(ctx: &mut Ctx, tag: &str, small: &str, cache: &str, schedule: &str, 
             }
         }
         let before = count_files(&srv.cache);
+        // cache = 3: no file of this process can grow beyond 4096 bytes while the requests are served (RLIMIT_FSIZE; the harness
+        // runs with SIGXFSZ ignored, so the write fails with EFBIG as on a full disk)
+        if cache_b == 3 && !set_fsize_soft(Some(4096)) { return "no-prlimit".to_string(); }
         let mut client = TcpStream::connect(srv.addr).unwrap();
         client.set_nodelay(true).unwrap();
         let mut transcript = Vec::new();
@@ -498,6 +511,7 @@ pub fn case(ctx: &mut Ctx, tag: &str, small: &str, cache: &str, schedule: &str, 
             None => transcript.extend_from_slice(&read_all(&mut client)),
         }
         drop(client);
+        if cache_b == 3 { let _ = set_fsize_soft(None); }
         // the connection task finishes asynchronously: wait for the cache dir to settle
         let mut files_after = count_files(&srv.cache);
         for _ in 0..200 {
@@ -659,6 +673,21 @@ pub fn run_c20w(ctx: &mut Ctx) {
     for beh in ["n500", "n503", "p", "n200"] {
         idx += 1;
         if ctx.mine(idx) { case(ctx, "c04", "100", "1", "single", &format!("GET:/k{idx}:K::{beh};GET:/after:n::n200")); }
+    }
+    // a response that cannot be written (nothing was sent for it) is answered by the 500 of its error — on a fresh connection,
+    // on one that has carried responses before, and after an interim 100 Continue
+    for prefix in ["", "GET:/ok:n::n200;", "GET:/ok:n::n200;POST:/p:k:3031:n201;"] {
+        for sched in ["single", "pingpong"] {
+            idx += 1;
+            if ctx.mine(idx) { case(ctx, "c04", "100", "1", sched, &format!("{prefix}GET:/dup{idx}:n::U;GET:/after:n::n200")); }
+        }
+    }
+    idx += 1;
+    if ctx.mine(idx) { case(ctx, "c04", "5", "1", "single", &format!("POST:/dupe{idx}:e:{}:U;GET:/after:n::n200", enc(b"0123456789"))); }
+    // the disk fails while an upload is being saved: a fault of the server (500, connection closed), never the client's (400)
+    for (framing, len) in [("k", 70_000usize), ("u", 70_000), ("e", 9_000), ("k", 4097)] {
+        idx += 1;
+        if ctx.mine(idx) { case(ctx, "c04", "100", "3", "single", &format!("POST:/full{idx}:{framing}:{}:g1000000;GET:/after:n::n200", enc(&vec![b'f'; len]))); }
     }
     for beh in ["n500", "n503", "n599", "n404", "p", "g5", "a9"] {
         for (framing, body) in [("n", String::new()), ("k", enc(b"0123456789")), ("u", enc(b"0123456789"))] {
